@@ -422,6 +422,39 @@ def gen_shards(ctx, binp, n, shards):
     return rows, hangs
 
 
+def classify_hang(ctx, ev, h):
+    """The implementation did not finish a run within the watchdog time.  Known finding iff the
+    program is in class F1/F2, the specification terminates, the compiler model emits the
+    implementation's code byte for byte (layer i, from a compile-only harness run) and the
+    machine model does not terminate on it either; a violation otherwise."""
+    line = h.get("prog")
+    rep = {"program": line, "index": h.get("START")}
+    try:
+        rc, out = c.run_bin(ev.binp, ["compile"], timeout=600, input=(line + "\n").encode(), env=HENV)
+        rows = [json.loads(l) for l in out.splitlines() if l.startswith("{")]
+        rows = [r for r in rows if "id" in r]
+        m = ev.run_model(rows)[0]
+        case = rows[0]
+        mc = m["cfg"].get("v1")
+        same_code = mc is not None and all(mf["code"] == jf["code"] and mf["regs"] == jf["regs"] and mf["consts"] == jf["consts"]
+                                           for mf, jf in zip(mc["funcs"], case["code"]["v1"]["out"]))
+        classes = [k for k in ("f1", "f2") if mc and any(f[k] for f in mc["funcs"])]
+        spec_ok = all(x["k"] in ("ok", "trap") for x in m["sem"])
+        mach_loops = bool(mc and mc["mach"] and any(x["k"] == "fuel" for x in mc["mach"]))
+        rep.update({"classes": classes, "spec": [brief(x) for x in m["sem"]], "compiler_model_matches": same_code,
+                    "machine_model": [x["k"] for x in (mc["mach"] or [])] if mc else None, "program_text": Prog(line).pretty()})
+        if classes and same_code and spec_ok and mach_loops and all(KF[x] in ev.kf_ids for x in classes):
+            for cl in classes:
+                ctx.known_finding(KF[cl], "a generated program of this class terminates in the specification but not in the implementation "
+                                          "(run abandoned by the watchdog); the faithful model (identical compiled code) does not terminate either")
+            ev.stats["known_mismatches"] += 1
+            ev.stats["known_nontermination"] = ev.stats.get("known_nontermination", 0) + 1
+            return
+    except Exception as e:  # fall through to a violation with what we have
+        rep["classification_error"] = repr(e)
+    ctx.violation(rep, "implementation did not terminate on a generated program that terminates in the specification")
+
+
 def report(ctx, ev, case, findings, budget):
     """Turn the findings of one program into KNOWN-FINDING / VIOLATION lines."""
     prog = Prog(case["prog"])
@@ -546,7 +579,7 @@ def run(ctx):
     cases = [r for r in rows if "id" in r]
     ctx.log("generated %d programs, running the models" % len(cases))
     for h in hangs:
-        ctx.violation({"program": h.get("prog"), "index": h.get("START")}, "implementation did not terminate on a generated (terminating) program")
+        classify_hang(ctx, ev, h)
     models = ev.run_model(cases)
     ctx.log("models done")
     nviol = 0
